@@ -26,17 +26,32 @@ def arc_points(rng):
 
 class C17(Property):
     id = "C17"
-    lean_module = "RosuModel.Props.C17"
+    lean_module = "RosuModel.Props.C17ArcEnd"   # imports Props/C17Arc.lean, Props/C17Ends.lean and Props/C17.lean; all in namespace Rosu.C17
     namespace = "Rosu.C17"
     design_ref = "5.17"
     level_text = (
-        "PARTIAL. Lean 4 theorems over the model of calculate_subpath and the approximators, for every arithmetic instance: "
+        "PARTIAL. Lean 4 theorems over the model of calculate_subpath and the approximators. STRUCTURAL (every arithmetic instance, hence the IEEE one): "
         "linear_identity; dispatch_bspline / dispatch_perfect_not_three / dispatch_perfect_three / arc_refused_collinear / "
-        "arc_refused_large (collinear or >=1000 sub-points => Bezier fallback; perfect with != 3 points => Bezier); arc_point_count; "
-        "segment_ends_at_last and piece_starts_at_first for the Bezier flattening; joint_dedup / joint_dedup_first "
-        "(rotate_left(1)+pop removes exactly the duplicated joint vertex); thetaLoop_fuel (one round of the angle loop suffices when theta_end+2pi is not "
-        "below theta_start); over exact rational arithmetic catmull_points_on_spline (catmull_subpath emits the uniform Catmull-Rom polynomial, standard "
-        "basis form, at t=c/50 and (c+1)/50 for c=0..49; by ring) and catmullRom_endpoints. "
+        "arc_refused_large (collinear or >=1000 sub-points => Bezier fallback; perfect with != 3 points => Bezier); arc_point_count; arc_shape / arcProps_shape "
+        "(an accepted arc is centre + (cos t_i, sin t_i)*radius, t_i = theta_start + (i/(n-1))*(direction*theta_range), centre = circumcentre formula, "
+        "radius = |a - centre|, theta_start = atan2(a - centre)); bezier_first_point / bezier_last_point: THROUGH the adaptive subdivision (any fuel on which it "
+        "succeeds, any scratch contents) the flattening starts with the segment's first control point and ends with its last - the very values, no law such as "
+        "(a+a)/2 = a is needed because bezier_subdivide copies points[0] into l[0] and points[n-1] into r[n-1] before any averaging and never overwrites them "
+        "(subdivide_keeps_ends, Lemmas/BezierEnds.lean: subdivOuter_frame, bezierSubdivide_ends, bsplineLoop_head); linear_first_point; catmullSimplify_head / "
+        "catmullSimplify_last (the osu!-mode simplification keeps both ends); joint_dedup / joint_dedup_first / joint_vertex_once / joint_vertex_kept_when_different "
+        "(a joint vertex pushed identically by two consecutive segments is stored once by the body of the segment loop; a differing or NaN one is kept twice); "
+        "thetaLoop_fuel. EXACT ARITHMETIC, laws as explicit hypothesis structures (Lemmas/ExactArith.lean: ExactScalar/ExactArith = the Scalar operations are those of "
+        "a linearly ordered field through an embedding; TrigLaws = cos^2+sin^2=1; SqrtLaws = sqrt(a)^2=a for a>=0; PolarLaws = sqrt(x^2+y^2)*(cos,sin)(atan2 y x)=(x,y)), "
+        "each shown satisfiable: ExactArith+TrigLaws on core Rat with the rational parametrisation of the unit circle (exactArith_rat, trigLaws_rat, a concrete accepted "
+        "8-vertex toy arc), all four on the reals (Lemmas/RealScalar.lean, atan2 = Complex.arg): catmull_first_point / catmull_last_point (the cubic at t=0 / t=1), "
+        "catmull_points_on_spline + catmullRom_endpoints (Rat, ring), arc_points_on_circle (every vertex v of an accepted arc has |v-centre|^2 = radius^2, squared form), "
+        "arc_first_vertex / arc_last_vertex (first vertex at angle theta_start, last at theta_start + direction*theta_range: 0/d=0, d/d=1), circumcentre_equidistant + "
+        "arc_radius_sq + arc_circle_through_controls (the circle is the one through the three control points), arc_first_point (first vertex = first control point), "
+        "segment_starts_at_first (all four kinds, >= 2 control points, either route of a perfect curve, also after the osu!-mode Catmull simplification); with PeriodLaws "
+        "(cos/sin 2pi-periodic, real instance) arc_last_point (the last vertex of an accepted arc is the third control point, whatever number of turns the angle loop adds: "
+        "thetaLoop_periodic, arc_last_angle) and segment_ends_at_last_all (all four kinds, before length adjustment); pos_eq_self (in exact arithmetic the `==` premise of "
+        "joint_vertex_once holds for an identical joint vertex). "
+        "libm sin/cos/atan2/acos and IEEE sqrt are NOT proved to satisfy TrigLaws/PolarLaws/SqrtLaws (they cannot, exactly), nor f32/f64 ExactArith. "
         "The tolerance bounds themselves (Hausdorff distance of the adaptive Bezier flattening with its smoothing step, arc sagitta, "
         "Catmull chord error) are NOT proved (bezier_within_tolerance_statement is only stated); they are tested: the real code's path is "
         "compared with independently evaluated exact curves (De Casteljau, circle through three points, Catmull-Rom polynomial, polyline) "
@@ -45,12 +60,24 @@ class C17(Property):
     required_theorems = ["linear_identity", "dispatch_bspline", "dispatch_perfect_not_three", "dispatch_perfect_three",
                          "arc_refused_collinear", "arc_refused_large", "arc_point_count", "segment_ends_at_last",
                          "piece_starts_at_first", "joint_dedup", "joint_dedup_first", "catmull_points_on_spline", "catmullRom_endpoints",
-                         "thetaLoop_fuel"]
+                         "thetaLoop_fuel",
+                         # Props/C17Ends.lean
+                         "bezier_first_point", "bezier_last_point", "subdivide_keeps_ends", "linear_first_point",
+                         "catmullSimplify_head", "catmullSimplify_last", "joint_vertex_once", "joint_vertex_kept_when_different",
+                         "catmullSubpath_head", "catmullSubpath_last", "catmull_first_point", "catmull_last_point",
+                         # Props/C17Arc.lean
+                         "arc_shape", "arcProps_shape", "arcAt_on_circle", "arc_points_on_circle", "arc_first_vertex", "arc_last_vertex",
+                         "circumcentre_equidistant", "arc_radius_sq", "arc_circle_through_controls", "arc_first_point",
+                         "segment_starts_at_first", "toy_arc_accepted",
+                         # Props/C17ArcEnd.lean
+                         "arcProps_end_shape", "thetaLoop_periodic", "arc_last_angle", "arc_last_point",
+                         "segment_ends_at_last_all", "pos_eq_self"]
     partial_theorems = {
         "bezier_within_tolerance_statement": "NOT proved (stated as a def): Hausdorff bound of adaptive Bezier flattening + final smoothing; evidence = oracle with bound 0.5 (2 x BEZIER_TOLERANCE) + float slack, both directions",
-        "arc_sagitta_bound / arc_points_on_circle": "not proved (needs cos^2+sin^2, atan2 laws); oracle: vertices on the circle within float slack, circle within 0.1 + slack of the path",
+        "arc_sagitta_bound": "not proved (real-analysis bound r(1-cos(d/2)) <= tol); oracle: circle within 0.1 + slack of the path",
+        "arc_points_on_circle / arc_first_vertex / arc_last_vertex / arc_circle_through_controls / arc_first_point / arc_last_point": "proved in exact arithmetic only, under explicit hypotheses (ExactArith; TrigLaws cos^2+sin^2=1; SqrtLaws; PolarLaws for arc_first_point; additionally PeriodLaws for arc_last_point) that are shown satisfiable on Rat (ExactArith, TrigLaws: rational unit-circle points) and all together on the reals; libm's sin/cos/atan2 and IEEE sqrt/f32/f64 are NOT proved to satisfy them - the float-level statement (vertices on the circle, first/last vertex at the control points, within float slack) is tested by the oracle",
         "catmull chord error": "not proved; oracle bound max|B''|/(8*50^2) per span (+6 px in osu! mode, the simplification threshold)",
-        "segment_starts_at_first": "proved per flat piece (piece_starts_at_first); that the first piece's parent still starts with the segment's first control point after subdivisions is not proved (tested: path[0] = first control point)",
+        "segment_starts_at_first / segment_ends_at_last_all": "Bezier/B-spline/linear/refused-arc: proved structurally for the whole segment through the adaptive subdivision (bezier_first_point), every arithmetic; Catmull and accepted arcs: exact arithmetic only (ExactArith, PolarLaws) - in f32 the cubic at t=0 is 0.5*(2*x) (exact unless 2*x overflows) and the arc start is centre + r*cos(atan2(..)) (rounded): tested (path[0] = first control point within slack)",
         "catmull_points_on_spline": "exact rational arithmetic only (Scalar instance on core Rat, ring); in f32 the polynomial is evaluated with rounding - covered by the bit-exact correspondence and the oracle's independent f64 evaluation",
         "thetaLoop_fuel": "the hypothesis (theta_end + 2pi >= theta_start) is a property of atan2 (range [-pi, pi]), not proved of libm; the driver reports fuel-exhausted distinctly and never did",
     }
